@@ -99,6 +99,19 @@ def rand_text(rng, nbytes):
     return "".join(out)
 
 
+class _TaggedStr(str):
+    """a str subclass with a rendering of its own (as a 'secret' or 'markup-safe' string type has)"""
+
+    def __str__(self):
+        return "<tagged>"
+
+    def __format__(self, spec):
+        return "<tagged>"
+
+    def __repr__(self):
+        return "<tagged>"
+
+
 class KeySrc:
     def __init__(self, kind, rng):
         self.kind = kind
@@ -204,6 +217,9 @@ def run(res, tier, seed, shard, nshards):
         for i in range(18 if tier == "quick" else 300):
             if (i + shard) % nshards == 0:
                 partial_send_then_reconnect_case(res, W, rng)
+        for i in range(60 if tier == "quick" else 1000):
+            if (i + shard) % nshards == 0:
+                failing_key_source_case(res, W, rng)
         for i in range(12 if tier == "quick" else 200):
             if (i + shard) % nshards == 0:
                 class_option_case(res, W, rng)
@@ -238,6 +254,10 @@ def one(res, W, rng, conns, L, api, ks, trace, null):
     if texty:
         s = rand_text(rng, L)
         arg = s
+        if rng.random() < 0.2:
+            # text whose type is a subclass of str (a tagged string, a str-mixin enum member's value type): text all the same
+            arg = _TaggedStr(s)
+            res.count("str_subclass_payloads")
         expect_payload = s.encode("utf-8")
     else:
         b = rng.randbytes(L) if L else b""
@@ -303,10 +323,15 @@ def one(res, W, rng, conns, L, api, ks, trace, null):
             expect_payload = bytes([status >> 8, status & 0xFF]) + reason
             op = R.CLOSE
             ret_expected = False
+            reason_arg = reason
+            if rng.random() < 0.3:
+                # the reason given as text ("reason: str or bytes" in send_close()'s documentation): its UTF-8 bytes go on the wire
+                reason_arg = reason.decode("utf-8")
+                res.count("close_reasons_given_as_str")
             if api == "close":
-                ret = w.close(status, reason, timeout=0.01)
+                ret = w.close(status, reason_arg, timeout=0.01)
             else:
-                ret = w.send_close(status, reason)
+                ret = w.send_close(status, reason_arg)
         else:
             raise AssertionError(api)
     except Exception as e:  # noqa
@@ -478,6 +503,66 @@ def tricky_text_case(res, W, rng, t):
         res.count("tricky_texts_sent")
         if _check_frame(res, f"{api}({t!r})", bytes(peer.client_stream[before:]), payload, op, fin, ret, case, api="tricky-" + api) is None:
             return
+
+
+def failing_key_source_case(res, W, rng):
+    """The key source fails for one frame (any exception type, the OSError family included): the call raises that exception and not a
+    byte is written; the next frame, with a working source again, is ordinary."""
+    import errno as _errno
+    EXC = [RuntimeError("no entropy"), BlockingIOError(_errno.EAGAIN, "Resource temporarily unavailable"), TimeoutError("entropy source timed out"),
+           OSError(_errno.EIO, "Input/output error"), ValueError("bad request size"), StopIteration(), InterruptedError(_errno.EINTR, "interrupted")]
+    exc = rng.choice(EXC)
+    state = {"fail": False, "draws": []}
+    as_str = rng.random() < 0.3
+
+    def key(n):
+        if state["fail"]:
+            raise exc
+        v = bytes(rng.randrange(256) for _ in range(n)) if not as_str else "".join(chr(rng.randrange(0x21, 0x7F)) for _ in range(n))
+        state["draws"].append(v)
+        return v
+    how = rng.choice(["ctor", "setter", "frame"])
+    w, conn, peer = H.connected_ws(ws_kwargs={"get_mask_key": key} if how == "ctor" else None)
+    if how == "setter":
+        w.set_mask_key(key)
+    api = rng.choice(["send", "send_binary", "ping", "pong", "send_frame", "send_close"])
+    payload = rng.randbytes(rng.choice([0, 5, 200]))
+    case = {"gen": "failing-key-source", "exception": type(exc).__name__, "api": api, "installed_by": how}
+    res.case(("failing-key", type(exc).__name__, api, how, len(payload)), nontrivial=True)
+    res.count("failing_key_source_cases")
+
+    def call():
+        if api == "send":
+            return w.send("text " + payload.hex())
+        if api == "send_binary":
+            return w.send_binary(payload)
+        if api == "ping":
+            return w.ping(payload[:125])
+        if api == "pong":
+            return w.pong(payload[:125])
+        if api == "send_close":
+            return w.send_close(1000, b"bye")
+        fr = W.ABNF.create_frame(payload, W.ABNF.OPCODE_BINARY, 1)
+        if how == "frame":
+            fr.get_mask_key = key
+        return w.send_frame(fr)
+    if how == "frame" and api != "send_frame":
+        w.set_mask_key(key)
+    before = len(peer.client_stream)
+    state["fail"] = True
+    try:
+        call()
+        got = None
+    except BaseException as e:  # noqa
+        got = e
+    state["fail"] = False
+    written = bytes(peer.client_stream[before:])
+    if got is not exc:
+        res.violation("send-raised" if got is not None else "key-draws", f"{api} with a key source that raises {type(exc).__name__} (installed by {how}): "
+                      + (f"raised {type(got).__name__}: {got}" if got is not None else f"returned normally; {len(written)} bytes written with a key the source never produced"),
+                      case, api="failing-key-source", exc_type=type(exc).__name__)
+    elif written:
+        res.violation("extra-bytes", f"{api} with a key source that raises {type(exc).__name__}: {len(written)} bytes were written although the call failed", case, api="failing-key-source")
 
 
 def partial_send_then_reconnect_case(res, W, rng):
